@@ -80,6 +80,7 @@ class Ctx:
             # that runs with very small or very large factors are observed with the same resolution
             self.TICKS_PER_SECOND = 1024.0 / (self.rt["rt_factor"] * self.rt.get("time_resolution", 1.0))
         self.faults: List[dict] = []  # planned faults (harness/faults)
+        self.rels: List[list] = []  # [[sid, eid], [sid, eid']] for every relation those replies declared ('rel')
         self.created: List[list] = []  # [sid, eid, type] of every entity the scripted simulators returned from create() (children too)
 
     TICKS_PER_SECOND = 1024
@@ -202,9 +203,20 @@ class AsyncProxy(BaseProxy):
         if func == "create":
             res = self._create(args)
 
+            if ctx.scn.get("info_requests"):
+                # relations declared by the simulator itself: every entity names the FIRST entity this simulator ever created (for the
+                # first one that is a relation to itself; a child names its parent as well) - they are edges of the entity graph too
+                for e in res:
+                    e["rel"] = [self.first_eid] if getattr(self, "first_eid", None) else [e["eid"]]
+                    self.first_eid = getattr(self, "first_eid", None) or e["eid"]
+                    for ch in e.get("children") or []:
+                        ch["rel"] = [e["eid"]]
+
             def note(es):
                 for e in es:
                     ctx.created.append([self.sid, e["eid"], e["type"]])
+                    for r in e.get("rel") or []:
+                        ctx.rels.append([[self.sid, e["eid"]], [self.sid, r]])
                     note(e.get("children") or [])
             note(res)
             return res
@@ -345,7 +357,7 @@ def _enc_related(ctx, arg, r):
         sid, _, eid = str(full).partition(".")
         return [sid, eid]
 
-    out = {"shape": "all" if arg is None else "one" if isinstance(arg, str) else "many", "created": [list(c) for c in ctx.created],
+    out = {"shape": "all" if arg is None else "one" if isinstance(arg, str) else "many", "created": [list(c) for c in ctx.created], "rels": [list(r) for r in ctx.rels],
            "q": [] if arg is None else [split(arg)] if isinstance(arg, str) else [split(a) for a in dict.fromkeys(arg)], "nodes": [], "edges": [], "rel": []}
     if r is None:
         return out
